@@ -57,11 +57,7 @@ impl Check for C01 {
     const ID: &'static str = "C01";
 
     fn runs(tier: Tier) -> u64 {
-        let base = if cfg!(debug_assertions) { 60_000 } else { 400_000 };
-        match tier {
-            Tier::Quick => base,
-            Tier::Thorough => base * 25,
-        }
+        crate::runner::scaled(1500000, tier)
     }
 
     fn generate(r: &mut Rng, tier: Tier) -> Case {
